@@ -392,6 +392,41 @@ Theorem C19_read_keep_trig_refuted :
 Proof. vm_compute. repeat split; reflexivity. Qed.
 Print Assumptions C19_read_keep_trig_refuted.
 
+(* ==== events passed by id ================================================================================= *)
+(* `ev.id = seq.register_label_event(ev)` and then add_block(ev) many times: set_block trusts the id.  With the
+   id register_* returned for THIS store, storing by id is storing by value (so the by-value theorems above
+   cover the idiom) ... *)
+Theorem C19_label_by_value_eq_by_id : forall abs_fix c i s v l hint,
+  let '(c1, id, _) := register_label c s v l in
+  fst (fst (set_block_core abs_fix c i [MLabel None s v l] hint)) =
+  fst (fst (set_block_core abs_fix c1 i [MLabel (Some id) s v l] hint)).
+Proof. exact label_by_value_eq_by_id. Qed.
+Print Assumptions C19_label_by_value_eq_by_id.
+
+Theorem C19_ctl_by_value_eq_by_id : forall abs_fix c i ty ch d du hint,
+  let '(c1, id, _) := register_ctl c ty ch d du in
+  fst (fst (set_block_core abs_fix c i [MCtl None ty ch d du] hint)) =
+  fst (fst (set_block_core abs_fix c1 i [MCtl (Some id) ty ch d du] hint)).
+Proof. exact ctl_by_value_eq_by_id. Qed.
+Print Assumptions C19_ctl_by_value_eq_by_id.
+
+(* ... whereas an id obtained from ANOTHER Sequence object is refuted: `INC LIN 1` is registered in a first store
+   (id 1); a second store holds `INC SLC 5` under id 1; adding the event with the foreign id to the second store
+   decodes to `INC SLC 5`.  This is why an event constructor must hand out fresh objects: an event returned by a
+   later call with equal arguments must not carry the id an earlier use attached. *)
+Definition by_id_first : core := fst (fst (register_label (core_init qc0 qc0 qc0 qc0) false (zq 1) 8)).
+Definition by_id_second : core := fst (fst (register_label (core_init qc0 qc0 qc0 qc0) false (zq 5) 1)).
+Theorem C19_foreign_id_refuted :
+  snd (fst (register_label (core_init qc0 qc0 qc0 qc0) false (zq 1) 8)) = 1 /\
+  option_map labels_of_ext
+    (stored_ext (fst (fst (set_block_core true by_id_second 1 [MLabel (Some 1) false (zq 1) 8] []))) 1)
+  = Some [mkLop false 1 5] /\
+  option_map labels_of_ext
+    (stored_ext (fst (fst (set_block_core true by_id_second 1 [MLabel None false (zq 1) 8] []))) 1)
+  = Some [mkLop false 8 1].
+Proof. vm_compute. repeat split; reflexivity. Qed.
+Print Assumptions C19_foreign_id_refuted.
+
 (* ==== tables read from the source (Gen/GenLabels.v) ================================================ *)
 Theorem C19_labels_table : List.length supported_labels = 21%nat /\ NoDup supported_labels.
 Proof. exact labels_table. Qed.
